@@ -7,6 +7,7 @@ import (
 	"reflect"
 	"regexp"
 	"runtime"
+	"strconv"
 	"strings"
 
 	"github.com/wundergraph/graphql-go-tools/v2/pkg/ast"
@@ -584,6 +585,79 @@ func clip(s string, n int) string {
 	return s
 }
 
+// The grammar's keywords (contextual: they are names everywhere else).
+var grammarKeywords = map[string]bool{"on": true, "true": true, "false": true, "null": true, "query": true, "mutation": true, "subscription": true,
+	"fragment": true, "implements": true, "schema": true, "scalar": true, "type": true, "interface": true, "union": true, "enum": true, "input": true,
+	"directive": true, "extend": true, "repeatable": true}
+
+const (
+	siteStringStructure = "a string whose content spells a keyword is parsed differently from the same string with a neutral content"
+	siteStringAccept    = "a string whose content spells a keyword changes whether the document is accepted"
+	neutralWord         = "zqz"
+)
+
+// checkStringContentNeutral: a quoted or block string (description or value)
+// is one token whatever it contains, so the document with the string
+// "<keyword>" must be accepted exactly when the document with the string
+// "zqz" in its place is, and with the same shape up to that content. The
+// second document is the reference: its string cannot be mistaken for a
+// keyword. (The parse of a mis-read document is self-consistent under
+// print / parse, only a reference shape shows it.)
+func checkStringContentNeutral(in string, p parseOut) (site, detail string) {
+	if strings.IndexByte(in, '"') < 0 || strings.Contains(in, neutralWord) {
+		return "", ""
+	}
+	var toks []tok
+	for _, t := range scan(in) {
+		if t.kind == tkString || t.kind == tkBlockString {
+			toks = append(toks, t)
+		}
+	}
+	for _, t := range toks {
+		var inner string
+		var off int
+		if t.kind == tkBlockString {
+			if len(t.text) < 6 || !strings.HasSuffix(t.text, `"""`) {
+				continue
+			}
+			inner, off = t.text[3:len(t.text)-3], t.start+3
+		} else {
+			if len(t.text) < 2 || !strings.HasSuffix(t.text, `"`) {
+				continue
+			}
+			inner, off = t.text[1:len(t.text)-1], t.start+1
+		}
+		word := inner
+		if t.kind == tkBlockString {
+			word = strings.Trim(inner, " \t\r\n")
+		}
+		if !grammarKeywords[word] {
+			continue
+		}
+		at := off + strings.Index(inner, word)
+		ref := in[:at] + neutralWord + in[at+len(word):]
+		rp := parse(ref)
+		if rp.panicked {
+			continue // reported when that input is evaluated itself
+		}
+		if rp.ok != p.ok {
+			return siteStringAccept, fmt.Sprintf("accepted=%v, but the same document with the string content %q instead of %q (%q): accepted=%v", p.ok, neutralWord, word, ref, rp.ok)
+		}
+		if !p.ok {
+			continue
+		}
+		sh, e1 := safeShape(p.doc)
+		rsh, e2 := safeShape(rp.doc)
+		if e1 != "" || e2 != "" {
+			continue
+		}
+		if want := strings.ReplaceAll(rsh, strconv.Quote(neutralWord), strconv.Quote(word)); sh != want {
+			return siteStringStructure, fmt.Sprintf("parses to\n      %s   but with the string content %q instead of %q the reference shape is\n      %s", strings.TrimSpace(sh), neutralWord, word, strings.TrimSpace(want))
+		}
+	}
+	return "", ""
+}
+
 // which oracle groups evaluate() runs (shrinking only needs the group of the failed clause)
 const (
 	mInside = 1 << iota
@@ -613,14 +687,21 @@ func evaluate(in string, mask int) (res evalResult) {
 		res.Outcome = "panic:" + p.site
 		return res
 	}
+	var sites []string
+	// the content of a string never decides the structure
+	if mask&mRT != 0 {
+		if site, detail := checkStringContentNeutral(in, p); site != "" {
+			res.Fails = append(res.Fails, failure{clauseRT, site, fmt.Sprintf("input %q: %s", in, detail)})
+			sites = append(sites, "string-content")
+		}
+	}
 	if !p.ok {
 		res.RejectMsg = p.msg
-		res.Outcome = "rej:" + normReject(p.msg)
+		res.Outcome = "rej:" + normReject(p.msg) + strings.Join(sites, ";")
 		return res
 	}
 	res.Accepted = true
 	doc := p.doc
-	var sites []string
 
 	// inside the input
 	if mask&mInside == 0 {
